@@ -296,11 +296,11 @@ def run(ctx: Ctx, replay: str | None) -> None:
         for j, s in enumerate(scns):
             jobs.append((dict(BASE_CFG, seed=ctx.seed), s["k"], s["hist"], s["calls"]))
             cfg = dict(cfgs[(j + ctx.seed) % len(cfgs)], seed=ctx.seed)
-            if (cfg["m"], cfg["dtype"], cfg["max_norm"]) != (BASE_CFG["m"], BASE_CFG["dtype"], BASE_CFG["max_norm"]):
+            if j % 2 == 0 and (cfg["m"], cfg["dtype"], cfg["max_norm"]) != (BASE_CFG["m"], BASE_CFG["dtype"], BASE_CFG["max_norm"]):
                 jobs.append((cfg, s["k"], s["hist"], s["calls"]))
         ctx.exhaustive = True
         ctx.extra["exhaustive_family"] = ("all histories over {A,B,C,reset} of length <= 5 x k in 1..4 on "
-                                          f"{BASE_CFG}; every history once more on a rotating configuration")
+                                          f"{BASE_CFG}; every second history once more on a rotating configuration")
     for s in (jobs[0], jobs[len(jobs) // 2], jobs[-1]):
         ctx.sample({"scenario": {"cfg": s[0], "k": s[1], "hist": s[2], "calls": s[3]}})
     replay_scenarios(ctx, jobs)
